@@ -78,7 +78,13 @@ func (s *store) Get(offset uint64) (*packet.Publish, error) {
 }
 
 func (s *store) Append(publish *packet.Publish) error {
-	_, err := s.log.WriteEntry(uint64(time.Now().UnixNano()), mustEncode(publish))
+	payload := mustEncode(publish)
+	// the commit log counts an entry it refused as written: its readers then wait for an entry that
+	// does not exist and spin. Refuse what it would refuse before it sees it.
+	if uint64(len(payload)) > commitlog.MaxEntrySize {
+		return commitlog.ErrEntryTooBig
+	}
+	_, err := s.log.WriteEntry(uint64(time.Now().UnixNano()), payload)
 	return err
 }
 
